@@ -466,6 +466,30 @@ class ModelMixin:
     def m_list_copy(self, recv, h, args, kwargs, st, line):
         return [ok(st.alloc(h.clone()), st)]
 
+    # symbolic list
+    def m_slist_append(self, recv, h, args, kwargs, st, line):
+        v = args[0]
+        if isinstance(v, Ref):
+            term = z3.Const(f'ref!{v.oid}', U)
+            h.meta.setdefault('refs', {})[v.oid] = v
+        elif isinstance(v, Opaque):
+            term = v.term
+        elif h.meta.get('elem_t') is Int:
+            term = to_int_term(v)
+        else:
+            raise EngineError('append to symbolic list')
+        n = h.meta['len']
+        arr = z3.Store(h.meta['arr'], n, term)
+        h.meta['arr'] = arr
+        h.meta['len'] = n + 1
+        et = h.meta.get('elem_t')
+        if et is Int:
+            h.meta['elem'] = lambda i, arr=arr: z3.Select(arr, to_int_term(i))
+        else:
+            kind = et.kind if et is not None else None
+            h.meta['elem'] = lambda i, arr=arr, k=kind: Opaque(z3.Select(arr, to_int_term(i)), kind=k)
+        return [ok(None, st)]
+
     # dict
     def m_dict_get(self, recv, h, args, kwargs, st, line):
         k = self.hashable_key(args[0])
@@ -708,8 +732,8 @@ class ModelMixin:
         if owner is None or owner.oid not in st.shared:
             return
         oh = st.obj(owner)
-        mon = self.monitor_of(oh)
-        if mon is None or h.meta.get('name') not in (mon.lock,) + mon.aliases:
+        mon = self.monitor_of(oh, lock=h.meta.get('name'))
+        if mon is None:
             return
         for fname, t in mon.fields.items():
             oh.fields[fname] = self.make_symbolic(t, f'{fname}', st)
@@ -723,8 +747,8 @@ class ModelMixin:
         if owner is None or owner.oid not in st.shared:
             return
         oh = st.obj(owner)
-        mon = self.monitor_of(oh)
-        if mon is None or h.meta.get('name') not in (mon.lock,) + mon.aliases:
+        mon = self.monitor_of(oh, lock=h.meta.get('name'))
+        if mon is None:
             return
         for nm, f in mon.invariant(View(self, st), owner).items():
             self.oblige(st, f'monitor.{mon.cls.split(":")[1]}.inv.{nm}@release{line}', f, kind='monitor', line=line)
